@@ -49,9 +49,18 @@ type Contract struct {
 	Asserts  []AssertAt
 	Params   []string // for iface/extern/callback: optional explicit parameter names
 	Refines  []string // interface method contracts this function must satisfy
+	GhostSets []GhostSet // ghost assignments performed by the function (ghost code)
 	File     string
 	Line     int
 	Used     bool
+}
+
+// GhostSet: "ghost-set name[idx] = expr" - the function, by definition, extends ghost state;
+// expr and idx are evaluated in the entry state. It is ghost code executed at the return.
+type GhostSet struct {
+	Name string
+	Idx  Expr
+	Val  Clause
 }
 
 type SpecFunc struct {
@@ -83,7 +92,7 @@ type Contracts struct {
 var clauseKeywords = map[string]bool{
 	"func": true, "iface": true, "extern": true, "callback": true, "spec": true, "axiom": true, "ghost": true,
 	"props": true, "arith": true, "flags": true, "requires": true, "ensures": true, "modifies": true,
-	"loop": true, "track": true, "panics": true, "statement": true, "refines": true, "params": true, "assert": true, "lemma": true,
+	"loop": true, "track": true, "panics": true, "statement": true, "refines": true, "ghost-set": true, "params": true, "assert": true, "lemma": true,
 }
 
 func parseContracts(srcs []contractSource) (*Contracts, error) {
@@ -230,6 +239,22 @@ func parseContracts(srcs []contractSource) (*Contracts, error) {
 					for _, f := range strings.FieldsFunc(rest, func(r rune) bool { return r == ',' || r == ' ' || r == ';' }) {
 						cur.Flags[f] = true
 					}
+				case "ghost-set":
+					eq := strings.Index(rest, "=")
+					lb := strings.Index(rest, "[")
+					rb := strings.Index(rest, "]")
+					if eq < 0 || lb < 0 || rb < lb || rb > eq {
+						return nil, errf("ghost-set name[idx] = expr")
+					}
+					ie, err := parseExpr(rest[lb+1 : rb])
+					if err != nil {
+						return nil, errf("%v", err)
+					}
+					c, err := mkClause(strings.TrimSpace(rest[eq+1:]))
+					if err != nil {
+						return nil, err
+					}
+					cur.GhostSets = append(cur.GhostSets, GhostSet{Name: strings.TrimSpace(rest[:lb]), Idx: ie, Val: c})
 				case "refines":
 					cur.Refines = append(cur.Refines, strings.Fields(rest)...)
 				case "params":
